@@ -36,6 +36,10 @@ func nsCases() []nsCase {
 		{`set var.s = "";`, []string{"v=[]", "", "ne-x", "eq-empty"}},
 		{`set var.s = req.http.Never-Set;`, []string{"", "", "ne-x", "eq-empty"}},
 		{`declare local var.u STRING; set var.s = var.u;`, []string{"", "", "ne-x", "eq-empty"}},
+		// an IP local that was only declared holds no address: it renders as nothing, directly and after a copy
+		{`declare local var.ip IP; set var.s = var.ip;`, []string{"v=[]", "", "ne-x", ""}},
+		{`declare local var.ip IP; declare local var.ip2 IP; set var.ip2 = var.ip; set var.s = var.ip2;`, []string{"v=[]", "", "ne-x", ""}},
+		{`declare local var.ip IP; declare local var.ip2 IP; set var.ip2 = var.ip; set var.s = "[" var.ip2 "]";`, []string{"v=[[]]", "truthy", "ne-x", "ne-empty"}},
 	}
 }
 
